@@ -4,11 +4,22 @@ tie    : correspondence supp names_at per read == Den at_ (lean/SuppModel/Den/Mo
          function level; executable Sem (run) == instrumented CPython trace
 search : real supp vs real CPython on every decision sequence of generated programs
 """
-from . import flowsem
+from . import flowsem, flowgraph, extractcorr
 
 
 def run(check):
     flowsem.run_property(check, 'C01')
+    # "no UNKNOWN NAME": the extractor gives every identifier read a region - theorem extract_every_load_has_flow over the
+    # Lean transliteration of nast.extract (family Extract), tied to the real extractor by an exact graph comparison
+    check.prove_also('Extract')
+    from . import common
+    ok, out = common.lake_build(['drv_extract'])
+    if not ok:
+        raise common.Infra('drv_extract build failed:\n' + out[-2000:])
+    S = flowgraph.load_supp()
+    progs = [('special%d' % i, s) for i, s in enumerate(extractcorr.SPECIALS)] + \
+        extractcorr.generated(check.rng, 100 if check.tier == 'quick' else 1000) + extractcorr.repo_files()
+    extractcorr.stream(check, S, progs, name='extractor (Lean transliteration = real extractor; reads without a region)')
 
 
 def replay(path):
